@@ -308,6 +308,9 @@ class World:
                 ch = g.to_choi_matrix()
                 out += [G.to_hs_from_choi_with_dict(c1, ch), G.to_hs_from_choi_with_sparsity(c1, ch), G.to_hs_from_choi(c1, ch),
                         G.to_choi_from_hs_with_dict(c1, g.hs), G.to_hs_from_choi_with_dict(c1, ch)]
+            # an ODD number of calls of the defining-formula conversion per action (a call that toggles a cached table in place
+            # must not be undone by its twin within the same action), followed by a reader of the same tables
+            out += [G.to_hs_from_choi(c1, P["g0"].to_choi_matrix()), G.to_choi_from_hs(c1, P["g2n"].hs)]
             return out
         if name == "conv_povm":
             return [[p.matrices(), p.matrices_with_sparsity(), p.matrix(0), p.calc_eigenvalues(), p.convert_basis(c1.comp_basis())]
